@@ -28,6 +28,13 @@ fn run(data: &[u8]) {
     for (what, p) in &first.panics {
         judge_panic(p, what);
     }
+    // work monitor: an iterator that yielded more than its format-defined ceiling
+    for a in &first.work_alarms {
+        violation(
+            &format!("work-bound:{}:{}", a.helper, a.ceiling_expr),
+            &format!("iterator yielded {} items, ceiling {}", a.yielded, a.ceiling),
+        );
+    }
     // purity spot check on a deterministic quarter of the inputs
     if vf_core::fnv64(data) % 4 == 0 {
         stat("determinism_checks", 1);
